@@ -281,8 +281,10 @@ class WindowGenerator(object):
 
         for first, last in self.firstlast:
             amp = np.ones(last - first)
-            amp[:self.overlap] = 1 if first == 0 else w
-            amp[-self.overlap:] = 1 if last == self.ns else np.flipud(w)
+            if first != 0:
+                amp[:self.overlap] = w
+            if last != self.ns:
+                amp[amp.size - self.overlap:] = np.flipud(w)
             yield (first, last, amp)
 
     @property
